@@ -60,6 +60,9 @@ pub struct ObRecord {
     pub nonlinear: bool,
     pub solver_s: f64,
     pub trivial: bool,
+    /// further models of the same violated obligation, anchored at pseudo-random points of the input box (a model at
+    /// a corner of the box can be degenerate in floating point; see `confirm_native`)
+    pub alt_models: Vec<(HashMap<String, f64>, Vec<TapeSample>)>,
 }
 
 #[derive(Clone, Debug)]
@@ -128,6 +131,10 @@ pub struct PathState {
     pc_model: Option<(HashMap<String, f64>, Vec<TapeSample>)>,
     /// when set, symbolic sqrt nodes are replaced by fresh non-negative variables (norm abstraction)
     pub abstract_sqrt: bool,
+    /// rounding model: every symbolic +,-,*,/ result r becomes r + e(r) with |e(r)| <= 2^-53 |r| (e a function of r)
+    pub rounding: bool,
+    pub rounded_ops: usize,
+    pub alt_budget: usize,
     pub fresh_counter: u32,
 }
 
@@ -521,6 +528,21 @@ pub fn assume_nonzero(eqz: u32) -> bool {
     })
 }
 
+pub fn set_rounding(b: bool) {
+    with_st(|st| st.rounding = b)
+}
+
+/// add a condition that is satisfiable by construction (no feasibility query)
+pub fn assume_unchecked(c: u32) {
+    with_st(|st| {
+        if c == C_TRUE || st.memo.get(&c) == Some(&true) {
+            return;
+        }
+        st.pc.push((c, true));
+        st.memo.insert(c, true);
+    })
+}
+
 pub fn set_fork_div_zero(b: bool) {
     with_st(|st| st.fork_div_zero = b)
 }
@@ -565,6 +587,7 @@ pub fn prove(name: &str, c: u32, strong_neg: Option<u32>) {
                 nonlinear: false,
                 solver_s: 0.0,
                 trivial: true,
+                alt_models: vec![],
             });
             return;
         }
@@ -583,6 +606,7 @@ pub fn prove(name: &str, c: u32, strong_neg: Option<u32>) {
             nonlinear: nl,
             solver_s: 0.0,
             trivial: false,
+            alt_models: vec![],
         };
         if std::env::var("SYMX_PATHLOG").is_ok() {
             st.notes.push(format!("ob {} := {}  -> {:?}", name, st.arena.cshow(c, 6), v));
@@ -641,6 +665,47 @@ pub fn prove(name: &str, c: u32, strong_neg: Option<u32>) {
                     }
                 }
                 rec.tapes = st.tapes_from_model(&rec.model);
+                // anchored alternative models (first candidates of a path only)
+                if st.alt_budget > 0 {
+                    st.alt_budget -= 1;
+                    let boxed: Vec<(u32, f64, f64)> = st
+                        .arena
+                        .vars
+                        .iter()
+                        .enumerate()
+                        .filter(|(_, v)| v.tape.is_none() && v.lo.is_some() && v.hi.is_some())
+                        .map(|(i, v)| (i as u32, v.lo.unwrap(), v.hi.unwrap()))
+                        .collect();
+                    let mut h: u64 = 0xD1B54A32D192ED03 ^ (st.obligations.len() as u64);
+                    for k in 0..4u64 {
+                        let mut extra: Vec<(u32, bool)> = vec![(c, false)];
+                        for (vi, lo, hi) in &boxed {
+                            h = h.wrapping_mul(6364136223846793005).wrapping_add(1442695040888963407 + k);
+                            let u = (h >> 11) as f64 / (1u64 << 53) as f64;
+                            // log-uniform anchor when the box spans decades on one side of zero, uniform otherwise
+                            let anchor = if *lo > 0.0 && hi / lo > 100.0 {
+                                lo * (hi / lo).powf(u)
+                            } else if *hi < 0.0 && lo / hi > 100.0 {
+                                hi * (lo / hi).powf(u)
+                            } else {
+                                lo + (hi - lo) * u
+                            };
+                            let w = if (*lo > 0.0 || *hi < 0.0) && (hi / lo).abs().max((lo / hi).abs()) > 100.0 { anchor.abs() * 0.5 } else { (hi - lo) * 0.15 };
+                            let name = st.arena.vars[*vi as usize].name.clone();
+                            let vn = st.arena.var(&name, Some(*lo), Some(*hi));
+                            let a = st.arena.konst(anchor - w);
+                            let b = st.arena.konst(anchor + w);
+                            extra.push((st.arena.le(a, vn), true));
+                            extra.push((st.arena.le(vn, b), true));
+                        }
+                        let ft = st.cfg.feas_timeout_s;
+                        let (va, ma, _, _) = st.check_t(&extra, true, true, ft);
+                        if va == Verdict::Sat && !ma.is_empty() {
+                            let tp = st.tapes_from_model(&ma);
+                            rec.alt_models.push((ma, tp));
+                        }
+                    }
+                }
             }
         }
         rec.solver_s = st.solver.seconds + st.solver2.seconds - t0;
@@ -746,6 +811,9 @@ pub fn run_path(cfg: &Cfg, tape: Vec<bool>, body: &(dyn Fn() + Sync), want_pc_mo
         want_pc_model,
         pc_model: None,
         abstract_sqrt: false,
+        rounding: false,
+        rounded_ops: 0,
+        alt_budget: 2,
         fresh_counter: 0,
     };
     ST.with(|s| *s.borrow_mut() = Some(st));
@@ -834,14 +902,23 @@ thread_local! {
 pub struct AssumeFailed;
 
 pub fn rp_input(name: &str, lo: f64, hi: f64) -> f64 {
-    RP.with(|r| {
+    let v = RP.with(|r| {
         let b = r.borrow();
         let rp = b.as_ref().expect("native scalar harness used outside of a replay");
         match rp.inputs.get(name) {
             Some(v) => *v,
             None => default_value(Some(lo), Some(hi)),
         }
-    })
+    });
+    // (perturbed replays: a value outside the declared box is outside the claim)
+    if !(v >= lo && v <= hi) && v.is_finite() {
+        RP.with(|r| {
+            if let Some(rp) = r.borrow_mut().as_mut() {
+                rp.assume_failed = true;
+            }
+        });
+    }
+    v
 }
 
 pub fn rp_tape(fname: &str, args: &[f64], lo: f64, hi: f64) -> f64 {
@@ -961,18 +1038,30 @@ pub fn confirm_native(model: &HashMap<String, f64>, tapes: &[TapeSample], body: 
     let mut keys: Vec<&String> = model.keys().collect();
     keys.sort();
     let mut h: u64 = 0x9E3779B97F4A7C15;
-    for round in 0..32u64 {
+    let mut next = move || {
+        h = h.wrapping_mul(6364136223846793005).wrapping_add(1442695040888963407);
+        h >> 11
+    };
+    for round in 0..128u64 {
         let mut m2 = model.clone();
         for k in &keys {
-            h = h.wrapping_mul(6364136223846793005).wrapping_add(1442695040888963407 + round);
-            let j = ((h >> 33) % 9) as i64 - 4;
             let v = model[*k];
-            if v != 0.0 && v.is_finite() && j != 0 {
-                let bits = v.to_bits() as i64 + j;
-                let w = f64::from_bits(bits as u64);
-                if w.is_finite() {
-                    m2.insert((*k).clone(), w);
-                }
+            if v == 0.0 || !v.is_finite() {
+                continue;
+            }
+            let w = if round < 32 {
+                // a few units in the last place
+                let j = (next() % 9) as i64 - 4;
+                f64::from_bits((v.to_bits() as i64 + j) as u64)
+            } else {
+                // relative perturbations of growing size (2^-50 .. 2^-3): any native failure inside the declared
+                // input boxes and harness assumptions is a violation, whatever path it takes
+                let mag = 2f64.powi(-50 + ((round - 32) as i32 * 47) / 96);
+                let u = (next() % (1 << 20)) as f64 / (1 << 20) as f64 * 2.0 - 1.0;
+                v * (1.0 + mag * u)
+            };
+            if w.is_finite() {
+                m2.insert((*k).clone(), w);
             }
         }
         let o2 = run_native(&m2, tapes, body);
@@ -1173,12 +1262,25 @@ pub fn explore(cfg: &Cfg, sym_body: &(dyn Fn() + Sync), nat_body: &(dyn Fn() + S
                 }
                 ObStatus::Undecided => rep.undecided.push(o.name.clone()),
                 ObStatus::Candidate => {
-                    let (out, used, confirmed) = confirm_native(&o.model, &o.tapes, nat_body);
+                    let (mut out, mut used, mut confirmed) = confirm_native(&o.model, &o.tapes, nat_body);
+                    let mut used_tapes = o.tapes.clone();
+                    if !confirmed {
+                        for (m, tp) in &o.alt_models {
+                            let (o2, u2, c2) = confirm_native(m, tp, nat_body);
+                            if c2 {
+                                out = o2;
+                                used = u2;
+                                used_tapes = tp.clone();
+                                confirmed = true;
+                                break;
+                            }
+                        }
+                    }
                     rep.candidates.push(Candidate {
                         harness: cfg.name.clone(),
                         obligation: o.name.clone(),
                         inputs: used,
-                        tapes: o.tapes.clone(),
+                        tapes: used_tapes,
                         decisions: r.decisions.clone(),
                         confirmed,
                         native_failures: out.failures,
